@@ -388,6 +388,13 @@ theorem jitter_history_bounded_new (cap : Nat) (ops : List Jitter.Op) :
     (Jitter.run (Jitter.init cap) ops).samples.length ≤ max cap 1 :=
   jitter_history_bounded (Jitter.init cap) (by simp [Jitter.init]) ops
 
+/-- **jitter_keys_ascending**: over every history the model's sample list keeps strictly ascending keys (so at most one
+sample per sequence number). This is the representation invariant that makes the association list a faithful
+`BTreeMap<u16, _>`: `tail` is `pop_first`, `filter (key ≠ f)` is `remove(&f)`, the first match of `find?` is `range(..).next()`. -/
+theorem jitter_keys_ascending (s : Jitter.St) (h : s.samples.Pairwise (fun a b => a.1 < b.1)) (ops : List Jitter.Op) :
+    (Jitter.run s ops).samples.Pairwise (fun a b => a.1 < b.1) :=
+  Jitter.run_sorted ops s h
+
 /-- the bound is attained (capacity 2: three in-order pushes keep two; capacity 0: one push keeps one) — the
 statement above is not vacuous and cannot be tightened to `capacity`. -/
 theorem jitter_bound_attained_witness :
